@@ -12,6 +12,9 @@ pub struct RemotePeer {
     pub view: PeerView,
     /// what this peer has told the client it has (bitfield + haves), as sent and settled
     pub advertised: Vec<bool>,
+    /// what the client should currently believe this peer has: the latest bitfield (a repeated one replaces the
+    /// earlier picture) plus every Have since
+    pub client_view: Vec<bool>,
     pub sent_handshake: bool,
     pub sent_bitfield: bool,
     /// last Choke/Unchoke this peer sent (true = it chokes the client); initial state: choking
@@ -49,6 +52,7 @@ impl Net {
             id,
             view: PeerView::new(),
             advertised: vec![false; n],
+            client_view: vec![false; n],
             sent_handshake: false,
             sent_bitfield: false,
             chokes_client: true,
@@ -74,12 +78,14 @@ impl Net {
     pub fn bitfield(&mut self, w: &mut World, p: usize, bits: &[bool]) {
         w.send_frame(self.peers[p].conn, &RFrame::Bitfield(wire::bits_to_bytes(bits)));
         self.peers[p].advertised = bits.to_vec();
+        self.peers[p].client_view = bits.to_vec();
         self.peers[p].sent_bitfield = true;
     }
 
     pub fn have(&mut self, w: &mut World, p: usize, i: usize) {
         w.send_frame(self.peers[p].conn, &RFrame::Have(i as u32));
         self.peers[p].advertised[i] = true;
+        self.peers[p].client_view[i] = true;
     }
 
     pub fn choke(&mut self, w: &mut World, p: usize) {
